@@ -665,6 +665,24 @@ func c16WireGate(r *Run) {
 					a.okAll = false
 				}
 			}
+			// and the error test has the right polarity: "itemErr == nil" holds on the path, or is the
+			// very value returned
+			errNil := false
+			isErrField := func(v ssa.Value) bool {
+				return strings.HasSuffix(renderWith(v, p.Resolve), ".itemErr")
+			}
+			for _, f := range p.Conds {
+				if x, eq, ok := isNilCmp(f.Cond); ok && isErrField(x) && eq == f.Val {
+					errNil = true
+				}
+			}
+			if x, eq, ok := isNilCmp(p.Resolve(ret)); ok && isErrField(x) && eq {
+				errNil = true
+			}
+			// lists return (itemErr == nil && clean): the comparison then sits in the path conditions
+			if !errNil {
+				a.okAll = false
+			}
 		}
 		for name := range want {
 			a := arms[name]
